@@ -139,6 +139,23 @@ func sweepAppendOnly(c *Ctx, cs *vc.Contracts) {
 		if !pkgs[pkgShort(fn)] || len(fn.Blocks) == 0 || fn.Parent() != nil || vc.AppendShape(fn) < 0 {
 			continue
 		}
+		if c.Tier != "thorough" && !c.WriteBase {
+			// quick tier: functions whose obligation is not discharged on the pinned tree cannot add a claim
+			// (they stay listed as undecided in the thorough tier) - unless the function is new
+			undecided, proved := false, false
+			for name, be := range c.Baseline {
+				if strings.HasPrefix(name, n+"/post@appends-only") {
+					if be.Status == "discharged" {
+						proved = true
+					} else {
+						undecided = true
+					}
+				}
+			}
+			if undecided && !proved {
+				continue
+			}
+		}
 		if ct := cs.ByFunc[n]; ct != nil {
 			// a function with a contract of its own carries the option already (markAppendOnly); when that
 			// contract is tagged C03 it has been verified by runContracts, otherwise it is verified here
@@ -181,6 +198,17 @@ func markAppendOnly(c *Ctx, cs *vc.Contracts) {
 	for n, ct := range cs.ByFunc {
 		fn := c.P.Funcs[n]
 		if fn == nil || !pkgs[pkgShort(fn)] || vc.AppendShape(fn) < 0 {
+			continue
+		}
+		tagged := false
+		for _, p := range ct.Props {
+			if p == "C03" {
+				tagged = true
+			}
+		}
+		if tagged {
+			// the hand-written C03 contracts (Symbol / String / Fixnum / Bignum / Character) state what they write
+			// themselves; the extra quantified assumptions of this family made two of their proofs unstable
 			continue
 		}
 		ct.Options["append-only"] = true
